@@ -405,6 +405,115 @@ fn judge(c: &OutageCase, r: &Result_, reference: &Result_) -> Vec<(String, Strin
     v
 }
 
+// ---- C11: any reply of the node ----------------------------------------------------------------
+
+#[derive(Clone, Debug, serde::Serialize, serde::Deserialize)]
+pub struct ReplyCase {
+    pub name: String,
+    pub cfg: TowerCfg,
+    pub prefix: Vec<Ev>,
+    pub faulty: Faulty,
+    /// the r-th RPC of the faulty step ...
+    pub rpc_index: u64,
+    /// ... is answered with this JSON-RPC error code (0: a result of the wrong shape)
+    pub code: i32,
+}
+
+/// Runs the case; Err(signature, detail) if a handler or the chain loop aborts or the tower is not live after.
+pub fn run_reply_case(c: &ReplyCase) -> Result<(), (String, String)> {
+    let mut world = World::new(c.cfg);
+    world.boot().map_err(|e| ("boot-failed".to_owned(), e))?;
+    for ev in c.prefix.iter() {
+        let o = world.apply(ev);
+        if let Some(p) = o.panic {
+            return Err(("prefix-panicked".into(), p));
+        }
+    }
+    {
+        let mut e = world.env.lock();
+        e.rpc_override = Some((e.rpc_count + c.rpc_index, c.code));
+    }
+    let ev = match &c.faulty {
+        Faulty::Poll => Ev::Poll,
+        Faulty::Add { user, disp, blob } => Ev::Add { user: *user, disp: *disp, blob: *blob, tsd: 42 },
+    };
+    let what = if c.faulty == Faulty::Poll { "poll" } else { "add" };
+    let mut steps = vec![ev, Ev::MineP(MineSel::Empty), Ev::Register(2), Ev::Add { user: 2, disp: 3, blob: Blob::Valid, tsd: 42 }, Ev::MineP(MineSel::Mempool), Ev::Restart, Ev::MineP(MineSel::Empty)];
+    for (i, ev) in steps.drain(..).enumerate() {
+        let o = world.apply(&ev);
+        if let Some(p) = o.panic {
+            let (msg, loc) = match p.rfind(" @") {
+                Some(j) => (&p[..j], &p[j + 2..]),
+                None => (p.as_str(), ""),
+            };
+            let file = loc.split(':').next().unwrap_or("");
+            let msg: String = msg.chars().take(80).collect();
+            let when = if i == 0 { format!("during:{what}") } else { format!("{i}-steps-after:{what}") };
+            return Err((format!("panic-after-node-reply:{file}:{msg}:{when}"), format!("{} rpc #{} answered {}: {p}", c.name, c.rpc_index, c.code)));
+        }
+        if let Some(e) = o.boot_error {
+            return Err((format!("restart-fails-after-node-reply:{what}"), format!("{} rpc #{} answered {}: {e}", c.name, c.rpc_index, c.code)));
+        }
+        if i == 2 && !matches!(o.api, Some(crate::world::ApiOutcome::Register(Ok(_)))) {
+            return Err((format!("not-live-after-node-reply:{what}"), format!("{} rpc #{} answered {}: a newcomer's registration got {:?}", c.name, c.rpc_index, c.code, o.api.map(|_| "an error"))));
+        }
+    }
+    Ok(())
+}
+
+pub fn replay_reply(v: &serde_json::Value) -> i32 {
+    let c: ReplyCase = serde_json::from_value(v["replay"]["case"].clone()).unwrap();
+    match run_reply_case(&c) {
+        Ok(()) => {
+            println!("{c:?}: fine");
+            0
+        }
+        Err((s, d)) => {
+            println!("VIOL {s} :: {d}");
+            1
+        }
+    }
+}
+
+/// Every RPC of every listed step answered with every listed error code (C11: "no sequence of requests,
+/// blocks and node replies makes a request handler or the chain-processing loop abort").
+pub fn node_replies(run: &Run, tier: Tier) -> u64 {
+    let codes: Vec<i32> = if tier == Tier::Quick { vec![0, -1, -5, -22, -25, -26, -27, -28, -32603] } else { vec![0, -1, -3, -5, -8, -20, -22, -25, -26, -27, -28, -32600, -32601, -32603, -32700, 1, i32::MIN, i32::MAX] };
+    let mut cases: Vec<ReplyCase> = Vec::new();
+    for (name, cfg, prefix, faulty) in prefixes() {
+        let mut w = World::new(cfg);
+        w.boot().unwrap();
+        for ev in prefix.iter() {
+            w.apply(ev);
+        }
+        let r0 = w.env.lock().rpc_count;
+        match &faulty {
+            Faulty::Poll => {
+                w.apply(&Ev::Poll);
+            }
+            Faulty::Add { user, disp, blob } => {
+                w.apply(&Ev::Add { user: *user, disp: *disp, blob: *blob, tsd: 42 });
+            }
+        }
+        let r1 = w.env.lock().rpc_count;
+        drop(w);
+        for r in 0..(r1 - r0) {
+            for code in codes.iter() {
+                cases.push(ReplyCase { name: name.clone(), cfg, prefix: prefix.clone(), faulty: faulty.clone(), rpc_index: r, code: *code });
+            }
+        }
+    }
+    let (res, _) = crate::explore::par_map(&cases, None, |_, c| run_reply_case(c));
+    let mut n = 0;
+    for (c, r) in cases.iter().zip(res.into_iter()) {
+        n += 1;
+        if let Some(Err((sig, detail))) = r {
+            run.violation(&sig, detail, json!({"engine": "node-reply", "case": c}), c.prefix.len());
+        }
+    }
+    n
+}
+
 pub fn replay(v: &serde_json::Value) -> i32 {
     let c: OutageCase = serde_json::from_value(v["replay"]["case"].clone()).unwrap();
     let choices: Vec<usize> = serde_json::from_value(v["replay"]["choices"].clone()).unwrap_or_default();
